@@ -53,6 +53,7 @@ Named == Names \ {""}
 Snapshot == [owner  |-> [n \in Named |-> IF storeClosed THEN 0 ELSE owner[n]],
              closed |-> [m \in 1..Len(mods) |-> mods[m].closed # 0],
              fired  |-> [m \in 1..Len(mods) |-> mods[m].fired],
+             res    |-> [m \in 1..Len(mods) |-> mods[m].res],       \* resource releases (memory, files, code), at most one
              rt     |-> rtClosed]
 
 Idle == [op |-> "idle"]
